@@ -16,6 +16,9 @@ import (
 )
 
 func init() {
+	mutant(&Mutant{Name: "c03-space-dropped-after-template", Property: "C03", File: "html/html.go",
+		Old: "\t\t\topenColgroup := inColgroup // the end tag of the previous colgroup is missing\n", New: "\t\t\tif t.Hash == Template {\n\t\t\t\tomitSpace = true\n\t\t\t}\n\t\t\topenColgroup := inColgroup // the end tag of the previous colgroup is missing\n",
+		Rule: "R03.19", Construct: "only after a block-level tag"})
 	register(&Property{
 		ID:    "C03",
 		Level: "other",
@@ -125,6 +128,7 @@ func runC03(c *Ctx) {
 	c.r0314(pk, fd)
 	c.r0315(pk, fd)
 	c.r0317(pk, fd)
+	c.r0319(pk, fd)
 	// an attribute wrongly marked boolean loses its value: the table check of C17, restricted to the attribute traits
 	// an attribute value that holds code decodes to the same value only if the code was minified as the browser reads it
 	c.alsoUnder(map[string]string{"R11.9": "R03.16"}, nil, func() { c.r119() })
@@ -1432,4 +1436,34 @@ func (c *Ctx) r0317(pk *packages.Package, fd *ast.FuncDecl) {
 		return false
 	})
 	c.R.Floor(rule, "optgroup end tag look-aheads", n, 1)
+}
+
+// R03.19: only a block-level tag makes the following white space redundant.
+func (c *Ctx) r0319(pk *packages.Package, fd *ast.FuncDecl) {
+	const rule = "R03.19"
+	c.R.Rule(rule, "omitSpace tells the text that follows to drop its leading white space because what was written before already separates it. After a tag that is true only when the tag breaks the line: in the start / end tag case of html.(*Minifier).Minify every assignment `omitSpace = true` is dominated by the true outcome of a test of the blockTag trait (which R17.htmltraits confines to block-level elements). An element that is not rendered — template, script, style — does not separate the words on either side of it: `a<template>x</template> b` must keep its space")
+	g := c.graph(pk, fd)
+	n := 0
+	for _, y := range g.Nodes {
+		as, ok := y.Stmt.(*ast.AssignStmt)
+		if !ok || y.Kind != flow.KStmt || len(as.Lhs) != 1 || len(as.Rhs) != 1 || nospace(str(as.Lhs[0])) != "omitSpace" || nospace(str(as.Rhs[0])) != "true" {
+			continue
+		}
+		if !strings.Contains(c.caseLabel(as), "html.StartTagToken") {
+			continue
+		}
+		n++
+		good := false
+		for _, f := range g.DomFacts(y) {
+			if !f.Value || f.Test.Kind != flow.KCond {
+				continue
+			}
+			s := nospace(str(f.Test.Expr))
+			if strings.Contains(s, "Traits&blockTag") && (strings.HasSuffix(s, "!=0") || strings.HasPrefix(s, "0!=")) {
+				good = true
+			}
+		}
+		c.R.Check(good, rule, fmt.Sprintf("html.Minifier.Minify/tag case/omitSpace = true#%d only after a block-level tag", n), c.pos(as), "behind t.Traits&blockTag != 0", "the white space after this tag is declared redundant although the tag is not known to be block-level: the space that separates the text on both sides of an unrendered or inline element is lost (`a<template>x</template> b` → `…</template>b`)")
+	}
+	c.R.Floor(rule, "assignments omitSpace = true in the tag case", n, 2)
 }
